@@ -238,6 +238,7 @@ func specInterrupts() bool {
 //@   at call (*Entry).print assert [C14.thru] callee.s == s && callee.stackFrame == stackFrame && callee.lvl == lvl
 //@   at call (*Entry).print assert [C15.bridge-msg] len(callee.msg) == ite(len(buf) > 0 && buf[len(buf)-1] == 10, len(buf)-1, len(buf)) && forall(i, 0, len(callee.msg), callee.msg[i] == buf[i]) && len(callee.kvps) == 0
 //@   ensures [C15.bridge-n] n == old(len(buf)) && isnil(err)
+//@   ensures [C15.bridge-emits] ghost.records >= old(ghost.records) + 1
 
 //@ func checkpath
 //@   props C02 C14
@@ -1677,8 +1678,9 @@ func specLastBool(b []bool, def bool) bool {
 //@   assigns s.buf, s.jsonMode, s.noColor, s.layout, s.utcTime, s.valueStringer, s.lvl, s.kvps, s.clr, s.bg
 //@   ensures [C09.colors] s.clr == clrBasic && s.bg == clrNone
 //@   ensures [C09.buf] len(s.buf) == 0 && samearray(s.buf, old(s.buf))
-//@   ensures [C11.derive] s.jsonMode == (specFormat(e) == fmtJSON) && s.noColor == (specFormat(e) != fmtColor)
-//@   ensures [C16.copy] s.layout == e.timeLayout && s.utcTime == e.modeUTC
+//@   ensures [C09.C11.derive] s.jsonMode == (specFormat(e) == fmtJSON) && s.noColor == (specFormat(e) != fmtColor)
+//@   ensures [C09.C16.copy] s.layout == e.timeLayout && s.utcTime == e.modeUTC
+//@   ensures [C09.stringer] s.valueStringer == e.valueStringer
 //@   ensures len(s.buf) == 0
 
 // ---------------------------------------------------------------- C16 timestamps
@@ -1706,7 +1708,7 @@ func specLayout(s *PrintCtx) string {
 }
 
 //@ func (*PrintCtx).appendTimestamp
-//@   props C16 C02
+//@   props C16 C02 C09
 //@   requires s != nil && 0 <= s.off && s.off <= len(s.buf)
 //@   assigns s.buf, s.off, s.lastRead, s.buf[:], ghost.utcIn, ghost.utcOut
 //@   ensures [C02.inv] 0 <= s.off && s.off <= len(s.buf) && implies(old(s.off) == 0, s.off == 0)
@@ -2472,6 +2474,7 @@ func specTellable(m LogWriter) bool {
 //@   requires [C07.in] kvps != nil
 //@   ensures [C07.append] len(*kvps) >= old(len(*kvps)) && forall(j, 0, old(len(*kvps)), (*kvps)[j] == old((*kvps)[j]))
 //@   ensures [C07.nokeys] implies(len(s.contextKeys) == 0, len(*kvps) == old(len(*kvps)))
+//@   at call (context.Context).Value assert [C07.ctx-key] callee.self == ctx && callee.key == k
 //@   loop 1 invariant len(*kvps) >= old(len(*kvps)) && forall(j, 0, old(len(*kvps)), (*kvps)[j] == old((*kvps)[j]))
 //@   loop 1 invariant implies(rangeindex == -1, len(*kvps) == old(len(*kvps)))
 
